@@ -892,3 +892,119 @@ def inline_private_calls(repo, cls, fn, depth=2, only=None, _seen=(), helper_tra
     if depth > 1:
         return inline_private_calls(repo, cls, new, depth - 1, only, _seen + (fn.name,), helper_transform)
     return new
+
+
+def unroll_static_loops(fn):
+    """copy of `fn` in which a `for` whose iterable is known statement by statement is replaced by its iterations:
+      - a list / tuple display                         `for q, p in [(A, x), (B, y)]: body`
+      - a call of a local generator function whose body is a straight line of simple statements and `yield e`
+        statements (no parameters)                     `def g(): yield A, x; s = f(); yield B, s` ... `for q, p in g(): body`
+      - a local name bound exactly once to one of the two and used only by the loop
+    The loop variables are substituted by the element expressions (an element that is not a display of matching shape is
+    assigned to the target first).  Loops with break / continue / else, or whose body rebinds a loop variable, are left.
+    Statements of the generator between its yields are hoisted in order, its locals renamed.  Nothing else is touched."""
+    import copy
+    import itertools
+    fn = copy.deepcopy(fn)
+    counter = itertools.count(1)
+    gens = {}
+    for st in ast.walk(fn):
+        if isinstance(st, ast.FunctionDef) and st is not fn and not st.args.args and not st.args.vararg and not st.args.kwarg and not st.args.kwonlyargs and not st.decorator_list:
+            body = [x for x in st.body if not (isinstance(x, ast.Expr) and isinstance(x.value, ast.Constant))]
+            ok = bool(body)
+            n_y = 0
+            for x in body:
+                if isinstance(x, ast.Expr) and isinstance(x.value, ast.Yield) and x.value.value is not None:
+                    n_y += 1
+                    if any(isinstance(y, (ast.Yield, ast.YieldFrom)) for y in ast.walk(x.value.value)):
+                        ok = False
+                elif isinstance(x, (ast.Assign, ast.Expr)) and not any(isinstance(y, (ast.Yield, ast.YieldFrom, ast.Lambda, ast.FunctionDef)) for y in ast.walk(x)):
+                    pass
+                else:
+                    ok = False
+            if ok and n_y:
+                gens[st.name] = body
+    stores = {}
+    loads = {}
+    for x in ast.walk(fn):
+        if isinstance(x, ast.Name):
+            (stores if isinstance(x.ctx, ast.Store) else loads).setdefault(x.id, []).append(x)
+
+    def sequence_of(it, loop):
+        """-> (list of ('stmt', s) / ('elem', e)) or None"""
+        if isinstance(it, (ast.List, ast.Tuple)) and not any(isinstance(e, ast.Starred) for e in it.elts):
+            return [("elem", e) for e in it.elts]
+        if isinstance(it, ast.Call) and isinstance(it.func, ast.Name) and it.func.id in gens and not it.args and not it.keywords:
+            n = next(counter)
+            body = copy.deepcopy(gens[it.func.id])
+            local = {t.id for s in body for t in ast.walk(s) if isinstance(t, ast.Name) and isinstance(t.ctx, ast.Store)}
+
+            class R(ast.NodeTransformer):
+                def visit_Name(self, nd):
+                    if nd.id in local:
+                        return ast.copy_location(ast.Name(id="_gen%d_%s" % (n, nd.id), ctx=nd.ctx), nd)
+                    return nd
+            out = []
+            for s in body:
+                s = R().visit(s)
+                if isinstance(s, ast.Expr) and isinstance(s.value, ast.Yield):
+                    out.append(("elem", s.value.value))
+                else:
+                    out.append(("stmt", s))
+            return out
+        if isinstance(it, ast.Name) and len(stores.get(it.id, [])) == 1 and len(loads.get(it.id, [])) == 1:
+            for a in ast.walk(fn):
+                if isinstance(a, ast.Assign) and len(a.targets) == 1 and isinstance(a.targets[0], ast.Name) and a.targets[0].id == it.id:
+                    seq = sequence_of(a.value, loop)
+                    if seq is not None:
+                        dead.append(a)
+                    return seq
+        return None
+
+    def subst(body, mapping):
+        class S(ast.NodeTransformer):
+            def visit_Name(self, nd):
+                if nd.id in mapping and isinstance(nd.ctx, ast.Load):
+                    return ast.copy_location(copy.deepcopy(mapping[nd.id]), nd)
+                return nd
+        return [S().visit(copy.deepcopy(s)) for s in body]
+    dead = []
+
+    class U(ast.NodeTransformer):
+        def visit_For(self, node):
+            self.generic_visit(node)
+            if node.orelse or any(isinstance(x, (ast.Break, ast.Continue)) for s in node.body for x in ast.walk(s)):
+                return node
+            tnames = [t.id for t in ast.walk(node.target) if isinstance(t, ast.Name)]
+            if not all(isinstance(t, (ast.Name, ast.Tuple, ast.List)) for t in ast.walk(node.target) if not isinstance(t, ast.expr_context)):
+                return node
+            if any(isinstance(x, ast.Name) and isinstance(x.ctx, ast.Store) and x.id in tnames for s in node.body for x in ast.walk(s)):
+                return node
+            seq = sequence_of(node.iter, node)
+            if seq is None or sum(1 for k_, _x in seq if k_ == "elem") > 16:
+                return node
+            out = []
+            for kind, x in seq:
+                if kind == "stmt":
+                    out.append(x)
+                    continue
+                if isinstance(node.target, ast.Name):
+                    out += subst(node.body, {node.target.id: x})
+                elif isinstance(x, (ast.Tuple, ast.List)) and len(x.elts) == len(node.target.elts) and all(isinstance(t, ast.Name) for t in node.target.elts):
+                    out += subst(node.body, {t.id: e for t, e in zip(node.target.elts, x.elts)})
+                else:
+                    out.append(ast.copy_location(ast.Assign(targets=[copy.deepcopy(node.target)], value=copy.deepcopy(x)), node))
+                    out += [copy.deepcopy(s) for s in node.body]
+            return [ast.copy_location(s, node) if not hasattr(s, "lineno") else s for s in out] or [ast.copy_location(ast.Pass(), node)]
+    new = U().visit(fn)
+    if dead:
+        class D(ast.NodeTransformer):
+            def visit_Assign(self, node):
+                return None if any(node is d for d in dead) else node
+        new = D().visit(new)
+        for parent in ast.walk(new):
+            for fld in ("body", "orelse", "finalbody"):
+                if isinstance(getattr(parent, fld, None), list) and not getattr(parent, fld) and fld == "body":
+                    parent.body = [ast.Pass()]
+    ast.fix_missing_locations(new)
+    return new
